@@ -7,6 +7,7 @@ Everything is rebuilt from /repo's current working tree.  Harness objects are ca
 import concurrent.futures
 import glob
 import hashlib
+import json
 import os
 import re
 import shlex
@@ -215,11 +216,43 @@ def _run_extract():
     importlib.reload(ex)
     ex._collect_plugins()
     errs = []
+    map_path = os.path.join(VERIF, "build", "gen_map.json")
+    try:
+        with open(map_path) as f:
+            gen_map = json.load(f)
+    except (OSError, ValueError):
+        gen_map = {}
     for g in ex.GENERATORS:
+        ex.CURRENT[0] = g.__name__
         try:
             g()
         except Exception as e:  # noqa: BLE001 - any failure is a broken tie
-            errs.append("%s: %s" % (g.__name__, e))
+            # the error names the Gen modules it concerns: "<generator> [Gen.A,Gen.B]: what";
+            # `only` (set by a generator that kept the last good value of one item) narrows it to
+            # the properties that pin that item
+            mods = set(ex.WRITES.get(g.__name__, set())) | set(gen_map.get(g.__name__, []))
+            if not mods:
+                # never seen succeeding: read the module names off the generator's source
+                try:
+                    import inspect
+                    src_txt = inspect.getsource(sys.modules[g.__module__])
+                    mods = set(re.findall(r"""\bwrite\(\s*["'](\w+)["']""", src_txt))
+                except Exception:  # noqa: BLE001
+                    mods = set()
+            mods = sorted(mods)
+            only = getattr(e, "only_props", None)
+            errs.append("%s [%s]%s: %s" % (g.__name__, ",".join("Gen." + m for m in mods),
+                                           " {only %s}" % ",".join(only) if only else "", e))
+        finally:
+            ex.CURRENT[0] = None
+        if ex.WRITES.get(g.__name__):
+            gen_map[g.__name__] = sorted(ex.WRITES[g.__name__])
+    try:
+        os.makedirs(os.path.dirname(map_path), exist_ok=True)
+        with open(map_path, "w") as f:
+            json.dump(gen_map, f)
+    except OSError:
+        pass
     return errs, ex.all_fingerprints()
 
 
